@@ -745,6 +745,11 @@ def kernel_value_table(ctx, clause: str, what: str):
                                 g = np.asarray(got, dtype=object)
                                 if prefix and bf:
                                     g = g.T
+                                want_shape = (len(hyps[0]) + (0 if excl else 1), len(refs)) if prefix else (len(refs),)
+                                if g.shape != want_shape:
+                                    if bad is None:
+                                        bad = (costs, eos, inc, bf, norm, prefix, f"a result of shape {g.T.shape if prefix and bf else g.shape}", f"shape {want_shape[::-1] if prefix and bf else want_shape}", None)
+                                    continue
                                 for n_, (r_, h_) in enumerate(zip(refs, hyps)):
                                     rs, hs = cut(r_, eos, inc), cut(h_, eos, inc)
                                     tabs = _lev_oracle(rs, hs, *costs)
